@@ -11,7 +11,9 @@ Setups == { s \in [g : GDirs, b1 : Beams, b2 : Dets, q : Qs] : ValidSetup(s) }
 Case(s) == [g |-> s.g, b1 |-> s.b1, b2 |-> s.b2, q |-> s.q, ng |-> GNorm(s.g),
             path |-> IF Perpendicular(s) THEN "optimised" ELSE "general",
             tt |-> TwoThetaClass(s), free |-> FreeClass(s), phi |-> PhiClass(s),
-            refl |-> Refl(s), cmp |-> ExpectedCmp(s)]
+            refl |-> Refl(s), cmp |-> ExpectedCmp(s),
+            \* numerators of the beam-aligned frame: e_y = ey/|ey|, e_z = zp/|zp|, e_x = ex/|ex|
+            ey |-> EyN(s), zp |-> ZpN(s), ex |-> ExN(s)]
 
 U == -1..1
 Box1 == { v \in U \X U \X U : v # <<0, 0, 0>> }
